@@ -544,6 +544,33 @@ func (c *fnctx) stmts(list []ast.Stmt, rest string) string {
 			// scopes over the translated tail, so the tail must not mention another variable
 			// of the same name.
 			as, ok := x.Init.(*ast.AssignStmt)
+			if ok && as.Tok == token.DEFINE && len(as.Lhs) > 1 && len(as.Rhs) == 1 {
+				// `if a, _, ok := call(...); cond {`: a multi-value call in the init.  The call must be
+				// hinted (by its source text) with a Gallina tuple of the same arity; blanks stay blanks.
+				h, hinted := c.hint(as.Rhs[0])
+				if !hinted {
+					failf("%s: multi-value if init %q needs a hint for %q (a Gallina tuple)", c.t.pos(s), c.t.src(x.Init), c.t.src(as.Rhs[0]))
+				}
+				names := []string{}
+				for _, l := range as.Lhs {
+					id, isID := l.(*ast.Ident)
+					if !isID {
+						failf("%s: unsupported if init %q", c.t.pos(s), c.t.src(s))
+					}
+					if id.Name == "_" {
+						names = append(names, "_")
+						continue
+					}
+					c.checkNoCapture(id, list[1:])
+					name := coqIdent(id.Name)
+					if r, ok := c.tg.Renames[id.Name]; ok {
+						name = r
+					}
+					names = append(names, name)
+				}
+				return "let '(" + strings.Join(names, ", ") + ") := " + h + " in\n  " +
+					c.stmts(append([]ast.Stmt{&ast.IfStmt{If: x.If, Cond: x.Cond, Body: x.Body, Else: x.Else}}, list[1:]...), rest)
+			}
 			if !ok || as.Tok != token.DEFINE || len(as.Lhs) != 1 || len(as.Rhs) != 1 {
 				failf("%s: unsupported if init %q (add an SHint)", c.t.pos(s), c.t.src(s))
 			}
@@ -686,6 +713,28 @@ func (c *fnctx) checkNoShadow(def *ast.Ident, tail []ast.Stmt) {
 			if id, ok := n.(*ast.Ident); ok && id.Name == def.Name {
 				if o := c.t.pkg.TypesInfo.Uses[id]; o != nil && o != obj {
 					failf("%s: %q introduced by an if/switch init would capture a different variable at %s", c.t.pos(def), def.Name, c.t.pos(id))
+				}
+			}
+			return true
+		})
+	}
+}
+
+// checkNoCapture: as checkNoShadow, but a same-named variable that is DECLARED inside the tail
+// (`v, ok := g()` after `if _, ok := f(); ok {...}`) is accepted: Go scoping guarantees that every
+// use of it follows its declaring statement, whose translation (a let, or the let of its SHint --
+// hints are part of the trusted base and printed in the Gen file) re-binds the name first.
+func (c *fnctx) checkNoCapture(def *ast.Ident, tail []ast.Stmt) {
+	if len(tail) == 0 {
+		return
+	}
+	obj := c.t.pkg.TypesInfo.Defs[def]
+	start, end := tail[0].Pos(), tail[len(tail)-1].End()
+	for _, s := range tail {
+		ast.Inspect(s, func(n ast.Node) bool {
+			if id, ok := n.(*ast.Ident); ok && id.Name == def.Name {
+				if o := c.t.pkg.TypesInfo.Uses[id]; o != nil && o != obj && !(o.Pos() >= start && o.Pos() < end) {
+					failf("%s: %q introduced by an if init would capture a different variable at %s", c.t.pos(def), def.Name, c.t.pos(id))
 				}
 			}
 			return true
